@@ -492,7 +492,9 @@ func (c *Ctx) classifyErr(p *errProducer) errVerdict {
 							return false
 						}
 						if call, ok := cond.(*ssa.Call); ok && calleeQ(&call.Call) == "errors.Is" && len(call.Call.Args) == 2 {
-							return vals[call.Call.Args[0]] && c.isGlobal(call.Call.Args[1], "io", "EOF")
+							// (whether this sentinel may mean success is judged by
+							// the enumerated idioms of sentinelNilReturn)
+							return vals[call.Call.Args[0]] && (c.isGlobal(call.Call.Args[1], "io", "EOF") || c.isGlobal(call.Call.Args[1], "io/fs", "ErrNotExist", "os", "ErrNotExist"))
 						}
 						if cmp, ok := isCmp(cond, token.EQL); ok {
 							return (vals[cmp.X] && c.isGlobal(cmp.Y, "io", "EOF")) || (vals[cmp.Y] && c.isGlobal(cmp.X, "io", "EOF"))
@@ -824,6 +826,7 @@ func (c *Ctx) sentinelNilReturn(p *errProducer) (string, bool) {
 					why = "io.EOF from a line reader ends the stage cleanly"
 				}
 				if q == "errors.Is" && call.Call.Args[0] == p.Val {
+					inNonNil = true // errors.Is(nil, …) is false
 					if c.isGlobal(call.Call.Args[1], "io/fs", "ErrNotExist", "os", "ErrNotExist") && strings.Contains(p.What, "os.Lstat") {
 						why = "fs.ErrNotExist from the Lstat of the shallow marker means a full clone"
 					}
